@@ -368,6 +368,91 @@ def rule_file_state(rep: Report, repo: Repo) -> None:
               f'{acc}; one parser object per assembly={one_parser}', f'{PARSER}:{prog.lineno}')
 
 
+def rule_binders(rep: Report, repo: Repo) -> None:
+    """identifiers inside macro bodies and call arguments are folded against the constants AT PARSE TIME, before any binder is known - so a
+    binder spelled like a constant would be captured by it: every grammar action that introduces binders refuses such names"""
+    rep.rule('C03.BINDERS', 'every grammar action that binds names for a macro body or a call - the `def` rules (parameters, local / global / '
+             'extern labels) and the `rep` rules (the iterator) - refuses, with a syntax error, a name that is already a constant: directly, '
+             'or through a parser method it hands the name(s) to that tests `<name> in self.consts`', 3)
+    cls = next((n for n in repo.mod(PARSER).body if isinstance(n, ast.ClassDef) and n.name == 'FJParser'), None)
+    if cls is None:
+        raise AnalysisError('C03.BINDERS: class FJParser not found')
+    methods: Dict[str, List[ast.FunctionDef]] = {}
+    for m in cls.body:
+        if isinstance(m, ast.FunctionDef):
+            methods.setdefault(m.name, []).append(m)
+
+    def refuses_consts(fn: ast.FunctionDef, name_text: Optional[str], seen: Tuple[str, ...] = ()) -> bool:
+        """fn reports a syntax error for (an element of) `name_text` being in self.consts"""
+        for i in ast.walk(fn):
+            if isinstance(i, ast.If) and any(isinstance(c, ast.Call) and dotted(c.func).split('.')[-1] == 'syntax_error' for b in i.body for c in ast.walk(b)):
+                for cmp_ in ast.walk(i.test):
+                    if isinstance(cmp_, ast.Compare) and len(cmp_.ops) == 1 and isinstance(cmp_.ops[0], ast.In) and norm(cmp_.comparators[0]) == 'self.consts':
+                        left = norm(cmp_.left)
+                        if name_text is None or left == name_text:
+                            return True
+                        # an element of the handed list: `for x in <name_text>: if x in self.consts`
+                        for lp in ast.walk(fn):
+                            if isinstance(lp, ast.For) and norm(lp.target) == left and name_text in norm(lp.iter) and any(i is x for x in ast.walk(lp)):
+                                return True
+        return False
+
+    def action_refuses(fn: ast.FunctionDef, binder_texts: List[str], depth: int = 0) -> List[str]:
+        missing = []
+        for bt in binder_texts:
+            ok = refuses_consts(fn, bt)
+            for c in calls(fn):
+                d = dotted(c.func)
+                if d.startswith('self.') and d.split('.')[1] in methods:
+                    # the whole production handed to a shared helper: the helper is read as the action
+                    if depth < 2 and bt.startswith('p.') and any(isinstance(a, ast.Name) and a.id == 'p' for a in c.args):
+                        for h in methods[d.split('.')[1]]:
+                            ps0 = [x.arg for x in h.args.args if x.arg != 'self']
+                            k0 = next(i for i, a in enumerate(c.args) if isinstance(a, ast.Name) and a.id == 'p')
+                            if k0 < len(ps0) and not action_refuses(h, [ps0[k0] + bt[1:]], depth + 1):
+                                ok = True
+                    for k, a in enumerate(c.args):
+                        if norm(a) == bt or (isinstance(a, ast.Name) and bt.endswith('.' + a.id)):
+                            for h in methods[d.split('.')[1]]:
+                                ps = [x.arg for x in h.args.args if x.arg != 'self']
+                                if k < len(ps) and refuses_consts(h, ps[k]):
+                                    ok = True
+            if not ok:
+                missing.append(bt)
+        return missing
+    n = 0
+    for name, fns in methods.items():
+        for fn in fns:
+            rules_ = [d.args[0].value for d in fn.decorator_list if isinstance(d, ast.Call) and dotted(d.func) == '_' and d.args
+                      and isinstance(d.args[0], ast.Constant) and isinstance(d.args[0].value, str)]
+            for r in rules_:
+                toks = r.split()
+                if toks[:1] == ['REP'] and 'ID' in toks:
+                    n += 1
+                    miss = action_refuses(fn, ['p.ID'])
+                    rep.check(not miss, 'C03.BINDERS', f'rep rule `{r[:50]}`', 'the iterator is refused when it is a constant' if not miss else
+                              'the rep iterator is not compared with the constants: `i = 7` ... `rep(3, i) m i` passes 7, 7, 7 (the arguments were '
+                              'folded before the iterator was known)', f'{PARSER}:{fn.lineno} FJParser.{name}', expected='syntax error for an iterator that is a constant')
+    # the def side: the method that validates the declared names compares them with the constants
+    vp = methods.get('validate_params', [])
+    n += 1
+    rep.check(bool(vp) and any(refuses_consts(h, None) for h in vp), 'C03.BINDERS', 'def rules: validate_params', 'parameters and declared labels are refused when they are constants',
+              f'{PARSER}:{vp[0].lineno if vp else 0} FJParser.validate_params')
+    # labels DECLARED inside macro bodies (extern `>` / global `<` labels) versus constants: the end-of-parse collision check has to see
+    # the Label ops of every macro, not only those of the main macro (validate_params only knows the constants defined BEFORE the macro)
+    vc = methods.get('validate_no_label_const_collisions', [])
+    if not vc:
+        raise AnalysisError('C03.BINDERS: FJParser.validate_no_label_const_collisions not found')
+    loops_ = [lp for lp in ast.walk(vc[0]) if isinstance(lp, ast.For)]
+    all_macros = any('self.macros.values()' in norm(lp.iter) or 'self.macros.items()' in norm(lp.iter) or norm(lp.iter) == 'self.macros' for lp in loops_)
+    rep.check(all_macros, 'C03.BINDERS', 'label / constant collisions: macro bodies', 'every macro is walked' if all_macros else
+              f'only {[norm(lp.iter) for lp in loops_]} is walked: with `x = 5`, `def m > x {{ x: ;x }}` is accepted and every `;x` means 5 although '
+              f'the label x was declared (the inlined program is refused)', f'{PARSER}:{vc[0].lineno} FJParser.validate_no_label_const_collisions',
+              expected='the Label ops of every macro body are compared with the constants')
+    if n < 3:
+        raise AnalysisError(f'C03.BINDERS: {n} binder sites found (two rep rules and validate_params expected)')
+
+
 def check(rep: Report, repo: Optional[Repo] = None) -> None:
     repo = repo or Repo()
     rep.units = dict(files=[PRE, OPS, EXPR, PARSER])
@@ -378,6 +463,7 @@ def check(rep: Report, repo: Optional[Repo] = None) -> None:
     rule_fresh(rep, repo)
     rule_prefix(rep, repo)
     rule_file_state(rep, repo)
+    rule_binders(rep, repo)
     rep.not_decided.append('equality of the assembled image with the hand-inlined program for all call trees (value-level)')
 
 
